@@ -216,7 +216,9 @@ func fragSizes(r *rand.Rand, part, mtu int) int {
 	if mtu < 0 {
 		mtu = 0
 	}
-	c := []int{0, 1, part - 1, part, part + 1, 2 * part, 2*part + 1, 3 * part, mtu - 1, mtu, mtu + 1, r.Intn(4*part + 2), r.Intn(mtu + 2)}
+	c := []int{0, 1, part - 1, part, part + 1, 2 * part, 2*part + 1, 3 * part, mtu - 1, mtu, mtu + 1, r.Intn(4*part + 2), r.Intn(mtu + 2),
+		// part counts at and around the byte boundaries of a completion bitmap
+		7*part + 1, 8 * part, 8*part + 1, 16 * part, 16*part + 1, 24 * part, 9 * part, 15 * part}
 	n := c[r.Intn(len(c))]
 	if n < 0 {
 		n = 0
